@@ -1,0 +1,39 @@
+//! Virtual clock: a drop-in for the subset of `std::time` used by this crate. The current time is
+//! a thread-local that only the simulator writes.
+
+use std::cell::Cell;
+
+pub use std::time::Duration;
+
+thread_local! {
+    static NOW_NS: Cell<u64> = Cell::new(0);
+}
+
+/// Sets the current virtual time (nanoseconds) seen by code running on this thread.
+pub fn set_now_ns(now_ns: u64) {
+    NOW_NS.with(|c| c.set(now_ns));
+}
+
+/// Returns the current virtual time (nanoseconds) on this thread.
+pub fn now_ns() -> u64 {
+    NOW_NS.with(|c| c.get())
+}
+
+#[derive(Clone, Copy, Debug, PartialEq, Eq, PartialOrd, Ord, Hash)]
+pub struct Instant(u64);
+
+impl Instant {
+    pub fn now() -> Self {
+        Instant(now_ns())
+    }
+}
+
+impl std::ops::Sub<Instant> for Instant {
+    type Output = Duration;
+
+    fn sub(self, other: Instant) -> Duration {
+        // std::time::Instant panics on a negative difference in debug builds and saturates in
+        // release builds; the virtual clock is monotonic per endpoint so this never triggers.
+        Duration::from_nanos(self.0.saturating_sub(other.0))
+    }
+}
